@@ -39,7 +39,7 @@ pub fn c11(tier: &str) -> i32 {
         v
     };
     let mut jobs: Vec<(Cfg, Vec<u8>, usize)> = vec![];
-    for p in 0..=5u8 {
+    for p in (0..=5u8).rev() {
         for &(min, max) in &pairs {
             for (ml, muts, uns) in [("none", vec![], false), ("full-safe", FULL.to_vec(), false), ("full-unsafe", FULL.to_vec(), true)] {
                 let _ = ml;
